@@ -185,7 +185,7 @@ let result c =
 (** val entry : bool -> 'a1 -> 'a1 cfg **)
 
 let entry do_simp s =
-  { c_pc = (if do_simp then PElimHead else PSolveHead); c_st = s; c_steps =
+  { c_pc = (if do_simp then PElimWork else PSolveHead); c_st = s; c_steps =
     O; c_polls = O }
 
 (** val predict : nat -> lbool -> nat -> lbool **)
